@@ -2,6 +2,7 @@ package sx
 
 import (
 	"fmt"
+	"go/types"
 	"hash/fnv"
 	"math/big"
 
@@ -27,6 +28,7 @@ func strCode(s string) BigVal {
 }
 
 func registerExtraModels(P *Program) {
+	registerRevocationModels(P)
 	m := P.models
 	// keyshareUserCommitmentsHash: SHA-256 over the CBOR encoding of the challenge
 	// input: an injective function of its structure (uninterpreted hash).
@@ -83,4 +85,168 @@ func registerExtraModels(P *Program) {
 		}
 		return smt.Ite(eq, smt.I64(1), smt.I64(0)), true
 	}
+}
+
+// SignedMsg is the model of a signed.Message (CBOR tuple of payload and ECDSA signature).
+type SignedMsg struct {
+	Key     int
+	Valid   *smt.Term
+	Payload Value // struct value of the signed object
+}
+
+func ecdsaKeyID(v Value) (int, bool) {
+	p, ok := v.(Pointer)
+	if !ok || p.C == nil {
+		return 0, false
+	}
+	o, ok := p.C.V.(*Opaque)
+	if !ok {
+		return 0, false
+	}
+	id, ok := o.Data.(int)
+	return id, ok
+}
+
+func (ex *Exec) newByteVar(prefix string) *smt.Term {
+	return ex.freshInt(prefix, big.NewInt(0), big.NewInt(255))
+}
+
+func registerRevocationModels(P *Program) {
+	m := P.models
+	const mh = "github.com/multiformats/go-multihash"
+	const signedPkg = TargetModule + "/signed"
+	// multihash.Sum(data, SHA2_256, -1): [0x12, 0x20, 32 digest bytes]; the digest is an
+	// injective function of the data bytes (32 fresh bytes per application).
+	m[mh+".Sum"] = func(ex *Exec, fn *ssa.Function, args []Value) (Value, bool) {
+		data := args[0].(Slice)
+		code, ok := term(args[1]).ConstInt64()
+		if !ok || code != 0x12 {
+			return Tuple{Slice{}, ex.freshError("multihash: unsupported code")}, true
+		}
+		hargs := []BigVal{{I: smt.I64(int64(data.Len))}}
+		for i := 0; i < data.Len; i++ {
+			hargs = append(hargs, BigVal{I: term(ex.load(data.A.E[data.Off+i]))})
+		}
+		bytes := ex.hashBytesApply(fmt.Sprintf("mhsha256/%d", data.Len), hargs, 32)
+		sl := ex.makeSlice(byteType, 34, 34)
+		sl.A.E[0].V = smt.I64(0x12)
+		sl.A.E[1].V = smt.I64(0x20)
+		for i, b := range bytes {
+			sl.A.E[2+i].V = b
+		}
+		return Tuple{sl, Iface{}}, true
+	}
+	m[mh+".Encode"] = func(ex *Exec, fn *ssa.Function, args []Value) (Value, bool) {
+		buf := args[0].(Slice)
+		code, ok := term(args[1]).ConstInt64()
+		if !ok || code >= 0x80 || buf.Len >= 0x80 {
+			ex.unsupported("multihash.Encode with code %v len %d", args[1], buf.Len)
+		}
+		sl := ex.makeSlice(byteType, 2+buf.Len, 2+buf.Len)
+		sl.A.E[0].V = smt.I64(code)
+		sl.A.E[1].V = smt.I64(int64(buf.Len))
+		for i := 0; i < buf.Len; i++ {
+			sl.A.E[2+i].V = ex.load(buf.A.E[buf.Off+i])
+		}
+		return Tuple{sl, Iface{}}, true
+	}
+	// multihash.Decode: single-byte varints only (buffers here are < 128 bytes); a
+	// first byte >= 0x80 is reported as an error (the caller rejects such codes anyway).
+	m[mh+".Decode"] = func(ex *Exec, fn *ssa.Function, args []Value) (Value, bool) {
+		buf := args[0].(Slice)
+		fail := func(msg string) (Value, bool) { return Tuple{Pointer{}, ex.freshError(msg)}, true }
+		if buf.Len < 2 {
+			return fail("multihash too short")
+		}
+		b0 := term(ex.load(buf.A.E[buf.Off]))
+		b1 := term(ex.load(buf.A.E[buf.Off+1]))
+		if !ex.branch(smt.Lt(b0, smt.I64(0x80))) {
+			ex.stubs["multihash.Decode: multi-byte varint codes are reported as errors (Hash.Algorithm rejects them in any case)"] = true
+			return fail("multihash: varint code")
+		}
+		if !ex.branch(smt.Le(b1, smt.I64(int64(buf.Len-2)))) {
+			return fail("multihash: length greater than remaining number of bytes")
+		}
+		n := ex.concretize(b1, "multihash length")
+		res := ex.zero(fn.Signature.Results().At(0).Type().(*types.Pointer).Elem()).(*Struct)
+		// DecodedMultihash{Code uint64, Name string, Length int, Digest []byte}
+		res.F[0] = b0
+		res.F[1] = "?"
+		res.F[2] = smt.I64(int64(n))
+		res.F[3] = Slice{A: buf.A, Off: buf.Off + 2, Len: n, Cap: n}
+		return Tuple{Pointer{C: ex.cellOf(res)}, Iface{}}, true
+	}
+	m[signedPkg+".MarshalSign"] = func(ex *Exec, fn *ssa.Function, args []Value) (Value, bool) {
+		id, ok := ecdsaKeyID(args[0])
+		if !ok {
+			ex.goPanic("nil pointer dereference (ECDSA private key)")
+		}
+		msg := args[1].(Iface)
+		p, ok := msg.V.(Pointer)
+		if !ok || p.C == nil {
+			ex.unsupported("MarshalSign of %T", msg.V)
+		}
+		a := &ArrObj{E: []*Cell{ex.cellOf(smt.I64(0))}}
+		ex.signedMsgs[a] = &SignedMsg{Key: id, Valid: smt.True, Payload: ex.load(p.C)}
+		return Tuple{Slice{A: a, Len: 1, Cap: 1}, Iface{}}, true
+	}
+	m[signedPkg+".UnmarshalVerify"] = func(ex *Exec, fn *ssa.Function, args []Value) (Value, bool) {
+		sl := args[1].(Slice)
+		var sm *SignedMsg
+		if sl.A != nil {
+			sm = ex.signedMsgs[sl.A]
+		}
+		if sm == nil {
+			return ex.freshError("cbor: malformed signed message"), true
+		}
+		id, ok := ecdsaKeyID(args[0])
+		if !ok {
+			ex.goPanic("nil pointer dereference (ECDSA public key used by ecdsa.Verify)")
+		}
+		if id != sm.Key || !ex.branch(sm.Valid) {
+			return ex.freshError("ecdsa signature was invalid"), true
+		}
+		dst := args[2].(Iface).V.(Pointer)
+		ex.store(dst.C, sm.Payload)
+		return Iface{}, true
+	}
+	m[commonPkg+".RandomQR"] = func(ex *Exec, fn *ssa.Function, args []Value) (Value, bool) {
+		n := ex.argBig(args[0], "RandomQR")
+		name := ex.fresh("qr")
+		ex.noteVar(name)
+		iv := smt.Var(name, smt.Int, big.NewInt(1), n.I.Hi)
+		ex.atoms[name] = true
+		if ex.modKind(n.I) == "" {
+			ex.modKinds[n.I.ID] = &ModInfo{Kind: "group", Name: "mod"}
+		}
+		g := &GroupFacet{Mod: n.I, Exps: map[string]*smt.Term{name: realOne}, Reduced: true}
+		return ex.newBig(BigVal{I: iv, G: g}), true
+	}
+}
+
+// hashBytesApply is like hashApply for hashes consumed byte-wise: every
+// application gets n fresh bytes; equal inputs <=> equal bytes.
+func (ex *Exec) hashBytesApply(kind string, args []BigVal, n int) []*smt.Term {
+	for _, h := range ex.hashes {
+		if h.Kind != kind || len(h.Args) != len(args) {
+			continue
+		}
+		same := true
+		for i := range args {
+			if h.Args[i].I != args[i].I {
+				same = false
+				break
+			}
+		}
+		if same {
+			return h.Bytes
+		}
+	}
+	bs := make([]*smt.Term, n)
+	for i := range bs {
+		bs[i] = ex.newByteVar("hbyte")
+	}
+	ex.hashes = append(ex.hashes, &HashApp{Kind: kind, Args: args, Bytes: bs})
+	ex.hashAx = nil
+	return bs
 }
